@@ -202,9 +202,12 @@ def angle_units(trace):
 class Ob:
     """goal: list of Constraint (conjunction unless any=True); hyps: extra hypotheses; twin: goal expected to be refutable"""
 
-    def __init__(self, name, goal, hyps=(), twin=None, any=False, extra_smt=(), text=None):
+    def __init__(self, name, goal, hyps=(), twin=None, any=False, extra_smt=(), text=None, pc_only=None):
         self.name, self.goal, self.hyps, self.twin, self.any, self.extra_smt = name, list(goal), list(hyps), twin, any, list(extra_smt)
         self.text = text
+        # optional (additive): set of decision indices; only these literals of the path condition (plus the input domain) are used as
+        # hypotheses of this obligation. Fewer hypotheses: 'unsat' is still a proof, the solver sees a much smaller formula.
+        self.pc_only = pc_only
 
 
 def eq(enc, name, lhs, rhs, hyps=(), twin=True):
@@ -541,7 +544,11 @@ def check_path(spec, inst, st, res, rng, tr, seeds, angle_pins, g):
         for c in pchyps:
             if not c.holds_at(enc.ring, enc.vals, 1e-9):
                 res.errors.append("path condition literal false at its own seed: %s (%s)" % (c.why, inst["name"]))
+        pchyps_all = pchyps
         for ob in obs:
+            pchyps = pchyps_all
+            if getattr(ob, "pc_only", None) is not None:
+                pchyps = [c for idx, c in pc if idx in ob.pc_only] + pchyps_all[len(pc):]
             key = (inst["name"], g, fi, tr.path_signature()[:64], ob.name)
             res.ob_keys.add(key)
             res.obligations += 1
@@ -585,6 +592,17 @@ def check_path(spec, inst, st, res, rng, tr, seeds, angle_pins, g):
                     r, model, dt, smt, names = r1, model1, 0.0, smt1, names1
                     res.queries -= 1
                     res.extra["decided_with_linear_literals_only"] = res.extra.get("decided_with_linear_literals_only", 0) + 1
+            if r is None and inst.get("lra_first") and not ob.extra_smt:
+                # optional stage (additive): linear-arithmetic relaxation with every non-linear monomial as a fresh real. Every model of the
+                # query is a model of the relaxation, so 'unsat' here is a proof; any other answer is ignored and the full query is asked.
+                smt1, names1 = q.smt_linearised()
+                r1, model1, dt1 = run_z3(smt1, names1, rlimit=st.rlimit, seed=st.seed & 0xFFFF, timeout_ms=st.z3_timeout_ms)
+                res.queries += 1
+                res.solver_time += dt1
+                if r1 == "unsat":
+                    r, model, dt, smt, names = r1, model1, 0.0, smt1, names1
+                    res.queries -= 1
+                    res.extra["decided_by_linear_relaxation_over_monomials"] = res.extra.get("decided_by_linear_relaxation_over_monomials", 0) + 1
             if r is None:
                 r, model, dt = run_z3(smt, names, rlimit=st.rlimit, seed=st.seed & 0xFFFF, timeout_ms=inst.get("z3_timeout_ms", st.z3_timeout_ms))
             else:
